@@ -11,8 +11,9 @@ Inductive case :=
 
 Definition agree (k : case) : bool :=
   match k with
-  | CFanin C k steps obs => bool_decide (limit_fanin_run C k steps = obs)
-  | CFanout C k steps obs => bool_decide (limit_fanout_run C k steps = obs)
+  (* replayed through the Base/Api.v operations (disconnect_g, add_g, connect_g); Proofs/LimitApi.v: an accepted API-level run is an accepted run of the direct model with the same result *)
+  | CFanin C k steps obs => bool_decide (limit_fanin_run_api C k steps = obs)
+  | CFanout C k steps obs => bool_decide (limit_fanout_run_api C k steps = obs)
   | CRegs C s order obs => bool_decide (insert_registers C s order = obs)
   | CUnroll _ _ => true
   end.
